@@ -327,7 +327,7 @@ def run(r):
     r.assumptions += [
         "rule soundness (original succeeds => rewritten succeeds with the same stack, no fill in scope, well-formed arrays) is proved for the 9 rules of `proved` only: "
         "reverse;first, reverse;last, rise;first, fall;last, fall;first, rise;last, deduplicate;length, TransposeOpt, PopConst; "
-        "the 36 rules of `listed_unproved` are decided by the differential search (the property is partial for them)",
+        "the 34 rules of `listed_unproved` are decided by the differential search (the property is partial for them)",
         "C01_optimize_run_sound is about the fix-point loop on ONE run of primitives and integer literals; the recursion of optimize_impl into operands "
         "(optimize_single since 402368c) is transcribed and validated by the optimiser tie but not proved sound",
         "pre-evaluation (PreEvalMode::Normal) and Node::push on non-scalar literals are covered by the search only; PathOpt's fill shapes are not transcribed (kept out of the tie)",
@@ -348,7 +348,7 @@ def run(r):
     e = search(r, m)
     r.coverage["evaluations"] = a[0] + b[0] + f + e
     r.coverage["distinct_nontrivial"] = a[1] + b[1]
-    r.coverage["rule"] = ("T: UNSORTED_OPTS (31 tuple rules: order, left and right sides; 14 hand-written rules: names, order, levels) and the arms of Node::push parsed "
+    r.coverage["rule"] = ("T: UNSORTED_OPTS (29 tuple rules: order, left and right sides; 14 hand-written rules: names, order, levels) and the arms of Node::push parsed "
                           "from the source text and compared with Opt.v in Coq; "
                           "V (optimiser): distinct raw trees (compiled with every rewrite off) of sources that embed each rule's left-hand side bare, inside operands, "
                           "after literals and nested up to 3 deep, optimised at Full and Early by the real optimiser and by the model; non-trivial = the optimiser changed the tree; "
